@@ -2,12 +2,13 @@
   TE.Driver.Curve — protocol adapters of the Curve family (C05): unpack tensors,
   perform the shape / parameter checks of the real `_input_check`s, call the typed
   models of TE/Model/Curve.lean; `spec.*` oracles evaluate TE/Spec/Curve.lean.
-  The classes are cache-all: their state is the list of cached samples (one
-  record of rationals per sample) plus one marker per `update` call
-  (`BinaryAUROC.compute` distinguishes "never updated" from "no samples").
+  The classes are cache-all: they run the typed class objects of TE/Model/FamsCache.lean
+  (state: the list of cached samples plus a "was updated" flag — `BinaryAUROC.compute`
+  distinguishes "never updated" from "no samples").
 -/
 import TE.Driver.Fam
 import TE.Model.Curve
+import TE.Model.FamsCache
 import TE.Spec.Curve
 namespace TE.Driver
 open TE TE.Curve
@@ -284,16 +285,21 @@ def specMultilabelRecallAtPrecision (a : Args) : Except Err String := do
 
 /- ---------- cache-all classes ---------- -/
 
-/-- state entry: `none` marks one `update` call, `some r` is one cached sample. -/
-abbrev CacheState := List (Option (List Q))
+/- The classes are the typed objects of TE/Model/FamsCache.lean (`Fams.…C : CFam`): the state is
+   `(updated?, cached samples)`; the adapters parse the tensors, perform the shape checks of the
+   real `_update_input_check`s, hand the batch to the typed `update`, and render the typed `compute`. -/
 
-/-- a cache-all class: `stat` = validation + the samples of the batch (as records),
-    `out never records` = `compute()` (`never` = no `update` ever happened). -/
-def cachePack (stat : Args → Except Err (List (List Q)))
-    (out : Bool → List (List Q) → Except Err String) : Pack :=
-  ⟨CacheState, additive (listAcc (Option (List Q)))
-    (fun a => do let r ← stat a; pure (none :: r.map some))
-    (fun st => out st.isEmpty (st.filterMap id))⟩
+/-- adapter of a typed class: parse + shape checks, typed `upd / mrg / out`, rendering. -/
+def packOf {B S O : Type} (m : Impl B S O) (parse : Args → Except Err B)
+    (render : O → Except Err String) : Pack :=
+  ⟨S, { init := m.init
+        upd := fun s a => do let b ← parse a; m.upd s b
+        mrg := m.mrg
+        out := fun s => do let o ← m.out s; render o }⟩
+
+/-- a configuration the constructor rejects (`ValueError`): every `update` / `compute` fails. -/
+def rejectPack : Pack :=
+  ⟨Unit, { init := (), upd := fun _ _ => .error .value, mrg := fun s _ => .ok s, out := fun _ => .error .value }⟩
 
 /-- one record per sample index: the entries of all `rows` at that index. -/
 def recordsOf (rows : List (List Q)) (n : Nat) : List (List Q) := colsOf rows n
@@ -308,171 +314,133 @@ def withNat (cfg : Args) (k : String) (f : Nat → Except String Pack) : Except 
 def withRat (cfg : Args) (k : String) (f : Q → Except String Pack) : Except String Pack :=
   match cfg.rat k with | .ok v => f v | .error e => .error e
 
+/-- the column of a `(num_tasks, n)` triple of tensors at one sample index. -/
+def splitRec3 (nt : Nat) (r : List Q) : Fams.TaskSample := (r.take nt, (r.drop nt).take nt, r.drop (2 * nt))
+
+def splitRec2 (nt : Nat) (r : List Q) : Fams.TaskPair := (r.take nt, r.drop nt)
+
 def packBinaryAuroc (cfg : Args) : Except String Pack :=
   withNat? cfg "num_tasks" fun nt0 =>
   let nt := nt0.getD 1
-  .ok <| cachePack
+  .ok <| packOf (Fams.binaryAurocC nt).cls
     (fun a => do
       let (i, t) ← iot a
       let w ← liftP (a.tensor? "weight")
       binaryAurocCheck i t w nt          -- (the class passes `ones_like(input)` when weight is None)
       let wr := match w with | some w => w.rows | none => i.rows.map onesLike
-      pure (recordsOf (i.rows ++ t.rows ++ wr) (lastDim i)))
-    (fun never recs =>
-      if never then .error .assertion else
-      let cols := colsOf recs (3 * nt)
-      outBinaryAuroc (nt == 1) (zip3 (cols.take nt) ((cols.drop nt).take nt) (cols.drop (2 * nt))))
+      pure ((recordsOf (i.rows ++ t.rows ++ wr) (lastDim i)).map (splitRec3 nt)))
+    (fun vs =>
+      if nt == 1 then
+        match vs with
+        | [v] => pure (showScalarX (.val v))
+        | _ => throw .other
+      else pure (showVecX (vs.map XQ.val)))
 
 def packBinaryAuprc (cfg : Args) : Except String Pack :=
   withNat? cfg "num_tasks" fun nt0 =>
   let nt := nt0.getD 1
-  .ok <| cachePack
+  .ok <| packOf (Fams.binaryAuprcC nt).cls
     (fun a => do
       let (i, t) ← iot a
       binaryAuprcCheck i t nt
-      pure (recordsOf (i.rows ++ t.rows) (lastDim i)))
-    (fun never recs =>
-      if never then .error .runtime else           -- `torch.cat([])`
-      let cols := colsOf recs (2 * nt)
-      outBinaryAuprc (nt == 1) ((cols.take nt).zip (cols.drop nt)))
-
-/-- records `[x₁ … x_C, label]` -/
-def mcRecords (i t : T) : List (List Q) := (i.rows.zip t.data).map fun p => p.1 ++ [p.2]
-
-/-- records `[x₁ … x_L, t₁ … t_L]` -/
-def mlRecords (i t : T) : List (List Q) := (i.rows.zip t.rows).map fun p => p.1 ++ p.2
-
-def mcSplit (recs : List (List Q)) (nc : Nat) : List (List Q) × List Q :=
-  let cols := colsOf recs (nc + 1)
-  (cols.take nc, (cols.drop nc).headD [])
-
-def mlSplit (recs : List (List Q)) (nl : Nat) : List (List Q × List Q) :=
-  let cols := colsOf recs (2 * nl)
-  (cols.take nl).zip (cols.drop nl)
+      pure ((recordsOf (i.rows ++ t.rows) (lastDim i)).map (splitRec2 nt)))
+    (fun vs =>
+      if nt == 1 then
+        match vs with
+        | [v] => pure (showScalarX v)
+        | _ => throw .other
+      else pure (showVecX vs))
 
 def packMulticlassAuroc (cfg : Args) : Except String Pack :=
   withNat cfg "num_classes" fun nc =>
-  let avg := curveAvg cfg
-  let ok := avg.isSome && nc ≥ 2            -- constructor `_multiclass_auroc_param_check`
-  let avg := avg.getD .macro
-  .ok <| cachePack
+  match curveAvg cfg with
+  | none => .ok rejectPack                    -- constructor `_multiclass_auroc_param_check`
+  | some avg =>
+  if nc < 2 then .ok rejectPack else
+  .ok <| packOf (Fams.multiclassAurocC nc avg).cls
     (fun a => do
-      if !ok then throw .value
       let (i, t) ← iot a
       multiclassCheck i t (some nc)
-      pure (mcRecords i t))
-    (fun never recs => do
-      if !ok then throw .value
-      if never then throw .assertion
-      let (cols, labs) := mcSplit recs nc
-      let r ← multiclassAuroc cols labs avg
-      pure (showAvg avg r))
+      pure (i.rows, t.data))
+    (fun r => pure (showAvg avg r))
 
 def packMulticlassAuprc (cfg : Args) : Except String Pack :=
   withNat cfg "num_classes" fun nc =>
-  let avg := curveAvg cfg
-  let ok := avg.isSome && nc ≥ 2
-  let avg := avg.getD .macro
-  .ok <| cachePack
+  match curveAvg cfg with
+  | none => .ok rejectPack
+  | some avg =>
+  if nc < 2 then .ok rejectPack else
+  .ok <| packOf (Fams.multiclassAuprcC nc avg).cls
     (fun a => do
-      if !ok then throw .value
       let (i, t) ← iot a
       multiclassCheck i t (some nc)
-      pure (mcRecords i t))
-    (fun never recs => do
-      if !ok then throw .value
-      if never then throw .runtime
-      let (cols, labs) := mcSplit recs nc
-      let r ← multiclassAuprc cols labs avg
-      pure (showAvg avg r))
+      pure (i.rows, t.data))
+    (fun r => pure (showAvg avg r))
 
 def packMultilabelAuprc (cfg : Args) : Except String Pack :=
   withNat cfg "num_labels" fun nl =>
-  let avg := curveAvg cfg
-  let ok := avg.isSome && nl ≥ 2
-  let avg := avg.getD .macro
-  .ok <| cachePack
+  match curveAvg cfg with
+  | none => .ok rejectPack
+  | some avg =>
+  if nl < 2 then .ok rejectPack else
+  .ok <| packOf (Fams.multilabelAuprcC nl avg).cls
     (fun a => do
-      if !ok then throw .value
       let (i, t) ← iot a
       multilabelCheck i t nl
-      pure (mlRecords i t))
-    (fun never recs => do
-      if !ok then throw .value
-      if never then throw .runtime
-      let r ← multilabelAuprc (mlSplit recs nl) avg
-      pure (showAvg avg r))
+      pure (i.rows, t.rows))
+    (fun r => pure (showAvg avg r))
 
 def packBinaryPrCurve (_cfg : Args) : Except String Pack :=
-  .ok <| cachePack
+  .ok <| packOf Fams.binaryPrCurveC.cls
     (fun a => do
       let (i, t) ← iot a
       binaryPrCheck i t
-      pure (recordsOf [i.data, t.data] (lastDim i)))
-    (fun never recs => do
-      if never then throw .runtime
-      let cols := colsOf recs 2
-      let c ← binaryPrCurve (cols.headD []) ((cols.drop 1).headD [])
-      pure (showPRCs [c]))
+      pure (i.data, t.data))
+    (fun c => pure (showPRCs [c]))
 
 def packMulticlassPrCurve (cfg : Args) : Except String Pack :=
   withNat? cfg "num_classes" fun nc0 =>
-  .ok <| cachePack
+  .ok <| packOf (Fams.multiclassPrCurveC nc0).cls
     (fun a => do
       let (i, t) ← iot a
       multiclassCheck i t nc0
-      pure (mcRecords i t))
-    (fun never recs => do
-      if never then throw .runtime
-      let nc := nc0.getD ((recs.headD []).length - 1)
-      let (cols, labs) := mcSplit recs nc
-      let cs ← multiclassPrCurve cols labs
-      pure (showPRCs cs))
+      pure (i.rows, t.data))
+    (fun cs => pure (showPRCs cs))
 
 def packMultilabelPrCurve (cfg : Args) : Except String Pack :=
   withNat cfg "num_labels" fun nl =>
-  .ok <| cachePack
+  .ok <| packOf (Fams.multilabelPrCurveC nl).cls
     (fun a => do
       let (i, t) ← iot a
       multilabelCheck i t nl
-      pure (mlRecords i t))
-    (fun never recs => do
-      if never then throw .runtime
-      let cs ← multilabelPrCurve (mlSplit recs nl)
-      pure (showPRCs cs))
+      pure (i.rows, t.rows))
+    (fun cs => pure (showPRCs cs))
 
 def packBinaryRecallAtPrecision (cfg : Args) : Except String Pack :=
   withRat cfg "min_precision" fun p =>
-  .ok <| cachePack
+  .ok <| packOf (Fams.binaryRecallAtPrecisionC p).cls
     (fun a => do
       let (i, t) ← iot a
       binaryPrCheck i t
       minPrecisionCheck p
-      pure (recordsOf [i.data, t.data] (lastDim i)))
-    (fun never recs => do
-      if never then throw .runtime
-      let cols := colsOf recs 2
-      let r ← binaryRecallAtPrecision (cols.headD []) ((cols.drop 1).headD []) p
-      pure (showPairs [r]))
+      pure (i.data, t.data))
+    (fun r => pure (showPairs [r]))
 
 def packMultilabelRecallAtPrecision (cfg : Args) : Except String Pack :=
   withRat cfg "min_precision" fun p =>
   withNat cfg "num_labels" fun nl =>
-  .ok <| cachePack
+  .ok <| packOf (Fams.multilabelRecallAtPrecisionC p nl).cls
     (fun a => do
       let (i, t) ← iot a
       multilabelCheck i t nl
       minPrecisionCheck p
-      pure (mlRecords i t))
-    (fun never recs => do
-      if never then throw .runtime
-      let rs ← multilabelRecallAtPrecision (mlSplit recs nl) p
-      pure (showPairs rs))
+      pure (i.rows, t.rows))
+    (fun rs => pure (showPairs rs))
 
 /-- (functional name, class name, configured family) — none: the curve classes are cache-all, see `curvePacks`. -/
 def curveFams : List (String × String × (Args → Except String Fam)) := []
 
-/-- (class name, packaged class model) — cache-all classes (`additive (listAcc _)`). -/
+/-- (class name, packaged class model) — cache-all classes (`Fams.CFam.cls`, TE/Model/FamsCache.lean). -/
 def curvePacks : List (String × (Args → Except String Pack)) := [
   ("BinaryAUROC", packBinaryAuroc),
   ("MulticlassAUROC", packMulticlassAuroc),
